@@ -49,13 +49,15 @@ pub struct StateCase {
     pub x: Array1<f64>,
     pub tf: f64,
     pub eta: f64,
+    /// an absolute temperature that has to be hit bitwise (a knot of a tabulated correlation); overrides tref * tf
+    pub t_abs: Option<f64>,
 }
 impl StateCase {
     pub fn key(&self) -> String {
         format!("{}|x={}|T={}|eta={}", self.entry.id, xs(&self.x), self.tf, self.eta)
     }
     pub fn t(&self) -> f64 {
-        self.entry.tref * self.tf
+        self.t_abs.unwrap_or(self.entry.tref * self.tf)
     }
     pub fn v(&self) -> f64 {
         1.0 / (rho_scale(&self.entry, &self.x) * self.eta)
@@ -74,7 +76,17 @@ pub fn state_lattice(zoo: &[Entry], tier: Tier) -> Vec<StateCase> {
         for x in e.compositions_for(tier) {
             for &tf in &t_factors(tier) {
                 for &eta in &eta_factors(tier) {
-                    v.push(StateCase { entry: e.clone(), x: x.clone(), tf, eta });
+                    v.push(StateCase { entry: e.clone(), x: x.clone(), tf, eta, t_abs: None });
+                }
+            }
+            // one input per shortcut visible in the code: the tabulated permittivity of the ePC-SAFT solvents is interpolated
+            // piecewise linearly; the first and last tabulated temperatures (where the correlation is locally linear, so that
+            // central differences are valid) are hit exactly
+            if e.electrolyte {
+                for t in [280.15, 360.15] {
+                    for eta in [1e-3, 0.6] {
+                        v.push(StateCase { entry: e.clone(), x: x.clone(), tf: t / e.tref, eta, t_abs: Some(t) });
+                    }
                 }
             }
         }
